@@ -301,6 +301,28 @@ Section RoundTrip.
     apply (round_trip_loop rs st [] _ None Hi Hj Hl); [|congruence].
     pose proof (concat_enc_length rs Hl). lia.
   Qed.
+  Lemma same_as_prev_noerr prev it :
+    (forall e, prev <> Some (IErr e)) -> same_as_prev prev it = false.
+  Proof.
+    intros Hn. unfold same_as_prev. destruct it; auto. destruct prev as [q|]; auto.
+    destruct (item_eqb q (IErr e)) eqn:E; auto. apply item_eqb_eq in E. subst. exfalso. eapply Hn; eauto.
+  Qed.
+
+  (* complete records followed by anything: the records come out first *)
+  Lemma records_then_tail : forall rs st j fuel prev tail,
+    Inv st -> Junk j -> Forall Legal rs -> (forall e, prev <> Some (IErr e)) ->
+    exists st' j' prev', Inv st' /\ Junk j' /\ (forall e, prev' <> Some (IErr e)) /\
+      recv_all_loop recv (length rs + fuel) prev st (j ++ concat (map enc rs) ++ tail)
+      = map IRec rs ++ recv_all_loop recv fuel prev' st' (j' ++ tail).
+  Proof.
+    induction rs as [|r rs IH]; intros st j fuel prev tail Hi Hj Hl Hp.
+    - exists st, j, prev. auto.
+    - inversion Hl as [|? ? Hr Hrs]; subst. cbn [map concat length Nat.add]. rewrite <- app_assoc.
+      destruct (recv_enc st j r (concat (map enc rs) ++ tail) Hi Hj Hr) as [st1 [j1 [E [Hi1 Hj1]]]].
+      cbn [recv_all_loop]. rewrite E.
+      destruct (IH st1 j1 fuel (Some (IRec r)) tail Hi1 Hj1 Hrs) as [st' [j' [prev' [H1 [H2 [H3 H4]]]]]]; [congruence|].
+      exists st', j', prev'. repeat split; auto. cbn [app]. f_equal. exact H4.
+  Qed.
 End RoundTrip.
 
 (* ---- generic progress: recv_all never runs out of fuel, never crashes ----- *)
